@@ -94,7 +94,7 @@ def run(chk):
     chk.prove()
     n = 40 if chk.quick else 600
     specs = pitcheck.specs_for(chk, n, {'excl': True, 'p_excl': .2, 'unsupported': False, 'train_mode': 'mix',
-                                        'styles': ['open']})
+                                        'styles': ['open'], 'reuse': True})
     for r, assigns in pitcheck.run_nets(chk, specs):
         if r.get('harness_error'):
             raise RuntimeError('harness error on %s: %s %s' % (r['spec'], r['harness_error'], r.get('tb')))
